@@ -33,6 +33,7 @@ func propC01(c *Ctx) {
 	c.ruleGetValue("C01-GETVALUE-NIL", reach)
 	c.ruleErrBranchValue("C01-ERR-BRANCH-VALUE", reach)
 	c.ruleConstIndex("C01-CONST-INDEX", reach)
+	c.ruleLineBounds("C01-LINE-BOUNDS")
 	c.ruleC10Cycle()
 	c.ruleRecursion(reach)
 	c.ruleLoops(reach)
@@ -83,9 +84,64 @@ func hasDeferredRecover(f *Fn) (*ast.FuncLit, bool) {
 
 // panicExceptions: sites the discharge rules cannot handle although reading shows they are safe.
 var panicExceptions = map[string]string{
-	"catalog.astNodeToJsightContent | panic":  "strconv.ParseBool of the value of an `optional` rule: jsight-schema-core only accepts the literals true/false for this rule when it compiles the schema (GetAST succeeded), so the error branch is dead",
 	"core.adoptError | panic":                 "reached only if an error that is not a *jerr.JApiError flows in; every caller passes the result of an Each/closure over handlers that return *jerr.JApiError or nil (checked by the closure-result discharge of the same rule at the call sites is not possible through errors.As, kept as a reasoned exception)",
 	"catalog.(ObjectBuilder).AddType | panic": "jschema.FromRSchema fails only if the regex schema does not compile; regex user types were Check()ed by compileUserTypes before any path variable is built (phase order verified by C01-RECURSION dependency pre-pass)",
+}
+
+// panicOfDeadError: panic(err) where err is the error of strconv.ParseBool applied to the ScalarValue of the rule
+// obtained by Get("optional") from a rule collection of a compiled schema. jsight-schema-core accepts only the literals
+// true and false as the value of the rule `optional` when it compiles the schema (the AST exists, so it compiled):
+// ParseBool cannot fail there. The discharge names the operation, not the function it happens to stand in.
+func (c *Ctx) panicOfDeadError(f *Fn, call *ast.CallExpr) string {
+	if len(call.Args) != 1 {
+		return ""
+	}
+	pk := f.Pkg
+	pc, k := definingCall(f, call.Args[0])
+	if pc == nil {
+		// err declared first (`var err error`) and assigned once by the call: isOptional, err = strconv.ParseBool(..)
+		id := identOf(call.Args[0])
+		if id == nil {
+			return ""
+		}
+		obj := pk.TypesInfo.Uses[id]
+		n := 0
+		ast.Inspect(f.Decl.Body, func(nd ast.Node) bool {
+			if as, ok := nd.(*ast.AssignStmt); ok && len(as.Rhs) == 1 {
+				for i, l := range as.Lhs {
+					if lid := identOf(l); lid != nil && objOf(pk, lid) == obj {
+						n++
+						if cl, ok := ast.Unparen(as.Rhs[0]).(*ast.CallExpr); ok {
+							pc, k = cl, i
+						}
+					}
+				}
+			}
+			return true
+		})
+		if n != 1 {
+			return ""
+		}
+	}
+	cal := callee(pk, pc)
+	if cal == nil || cal.Pkg() == nil || cal.Pkg().Path()+"."+cal.Name() != "strconv.ParseBool" || k != 1 || len(pc.Args) != 1 {
+		return ""
+	}
+	sel, ok := ast.Unparen(pc.Args[0]).(*ast.SelectorExpr)
+	if !ok || sel.Sel.Name != "ScalarValue" {
+		return ""
+	}
+	gc, gk := definingCall(f, sel.X)
+	if gc == nil || gk != 0 || len(gc.Args) != 1 {
+		return ""
+	}
+	if g := callee(pk, gc); g == nil || g.Name() != "Get" {
+		return ""
+	}
+	if key, isStr := constString(pk, gc.Args[0]); !isStr || key != "optional" {
+		return ""
+	}
+	return "the error of strconv.ParseBool on the value of the schema rule `optional`: jsight-schema-core accepts only true/false for this rule when it compiles the schema (the AST in hand exists, so it compiled); the branch is dead"
 }
 
 func (c *Ctx) rulePanicInventory(rule string, reach map[*ssa.Function]bool, rootsDesc string) {
@@ -119,6 +175,8 @@ func (c *Ctx) rulePanicInventory(rule string, reach map[*ssa.Function]bool, root
 					r.Ok(rule, key, c.enumRangeGuard(pk, stack), where)
 				case f.Pkg.PkgPath == prog.ModulePath+"/scanner" && (f.Obj.Name() == "peek" || f.Obj.Name() == "shiftFound"):
 					r.Ok(rule, key+" ("+recvName(f.Obj)+")", "unreachable: the automaton analysis shows no pop of an empty step stack, no unmatched End event and no read of an empty event queue (C01-PDS-UNDERFLOW)", where)
+				case c.panicOfDeadError(f, x) != "":
+					r.Ok(rule, key, c.panicOfDeadError(f, x), where)
 				default:
 					if why, ok := panicExceptions[key]; ok {
 						r.Ok(rule, key, "named exception: "+why, where)
@@ -1617,6 +1675,98 @@ func (c *Ctx) victimKinds(t *types.Named) (tag *types.Func, kinds []*types.Const
 		names = append(names, k.Name())
 	}
 	return tag, kinds, fmt.Sprintf("%d construction site(s) in the module: %s", sites, strings.Join(names, ", "))
+}
+
+// ruleLineBounds: bytes.Bytes.BeginningOfLine(i) and EndOfLine(i) of jsight-schema-core index their data without a
+// check of their own: BeginningOfLine reads data[min(i, len-1)] (data[-1 as an unsigned index] for empty content),
+// EndOfLine reads data[i-1] for i beyond the end. Every error location is built through them (jerr.quote), also for
+// an empty file and for a position past the end (EOF errors use index == len): the caller has to exclude both.
+func (c *Ctx) ruleLineBounds(rule string) {
+	r := c.R
+	r.Rule(rule, "every call of bytes.Bytes.BeginningOfLine(i) / EndOfLine(i) in the library is reached only with the content known to be non-empty (a test of <content>.Len() that 0 fails) and i known not to exceed <content>.LenIndex(): the two functions of the dependency index without checking (read in the dependency)", 2)
+	n := 0
+	for _, f := range c.libFns() {
+		pk := f.Pkg
+		var cf *funcCFG
+		ast.Inspect(f.Decl.Body, func(nd ast.Node) bool {
+			call, ok := nd.(*ast.CallExpr)
+			if !ok || len(call.Args) != 1 {
+				return true
+			}
+			cal := callee(pk, call)
+			if cal == nil || cal.Pkg() == nil || !strings.HasSuffix(cal.Pkg().Path(), "jsight-schema-core/bytes") || (cal.Name() != "BeginningOfLine" && cal.Name() != "EndOfLine") {
+				return true
+			}
+			sel, ok := ast.Unparen(call.Fun).(*ast.SelectorExpr)
+			if !ok {
+				return true
+			}
+			n++
+			if cf == nil {
+				cf = c.cfgOf(f)
+			}
+			recv, pos := exprString(sel.X), exprString(call.Args[0])
+			nonEmpty := func(cond ast.Expr, holds bool) bool {
+				env := &constEnv{c: c}
+				seen := false
+				env.leaf = func(g *Fn, e ast.Expr) (constant.Value, bool) {
+					if c2, ok := e.(*ast.CallExpr); ok && g == f && len(c2.Args) == 0 {
+						if s2, ok := ast.Unparen(c2.Fun).(*ast.SelectorExpr); ok && s2.Sel.Name == "Len" && exprString(s2.X) == recv {
+							seen = true
+							return constant.MakeInt64(0), true
+						}
+					}
+					return nil, false
+				}
+				return env.refutes(f, cond, holds) && seen
+			}
+			inRange := func(cond ast.Expr, holds bool) bool {
+				be, ok := ast.Unparen(cond).(*ast.BinaryExpr)
+				if !ok {
+					return false
+				}
+				isLI := func(e ast.Expr) bool {
+					c2, ok := ast.Unparen(e).(*ast.CallExpr)
+					if !ok || len(c2.Args) != 0 {
+						return false
+					}
+					s2, ok := ast.Unparen(c2.Fun).(*ast.SelectorExpr)
+					return ok && s2.Sel.Name == "LenIndex" && exprString(s2.X) == recv
+				}
+				x, y, op := be.X, be.Y, be.Op
+				if isLI(x) {
+					x, y = y, x
+					switch op {
+					case token.LSS:
+						op = token.GTR
+					case token.GTR:
+						op = token.LSS
+					case token.LEQ:
+						op = token.GEQ
+					case token.GEQ:
+						op = token.LEQ
+					}
+				}
+				if !isLI(y) || exprString(x) != pos {
+					return false
+				}
+				return (op == token.GTR && !holds) || (op == token.LEQ && holds)
+			}
+			key := fmt.Sprintf("%s | %s.%s(%s)", f.Name(), recv, cal.Name(), pos)
+			switch {
+			case !cf.establishedAt(call, nonEmpty, nil):
+				r.Bad(rule, key, "reached with possibly empty content: the dependency function indexes data[len-1] (an unsigned -1) and panics; an error in an empty file cannot be reported", c.pos(call.Pos()))
+			case !cf.establishedAt(call, inRange, nil):
+				r.Bad(rule, key, "reached with a position that may lie beyond the end of the content: the dependency function indexes past the data and panics", c.pos(call.Pos()))
+			default:
+				r.Ok(rule, key, "content known to be non-empty and the position known to be within it", c.pos(call.Pos()))
+			}
+			return true
+		})
+	}
+	if n == 0 {
+		r.Undecided(rule, "sites", "no call of BeginningOfLine / EndOfLine found: the quoting of the offending line is no longer recognised", "")
+	}
 }
 
 // ---------- GetValue results ----------
